@@ -10,6 +10,7 @@ import os
 
 import core
 import s3_util as S3
+import t2_util as T
 import uwgutil as U
 from props import c07
 
@@ -29,8 +30,13 @@ STOCKS = [[('largeoffice', 'pst80', 0.4), ('midriseapartment', 'pst80', 0.6)],
           [('supermarket', 'NEW', 1.0)],
           [('primaryschool', 'pre80', 0.125), ('largehotel', 'new', 0.875)],
           [('stripmall', 'pst80', 0.5), ('stripmall', 'new', 0.5)]]
-ACCEPT = {'01': [0.0, 1.0, 0.5, 0.25, 0.375, 0.91, 0.05, 1, 0], 'flr_h': [3.05, 2.5, 4.5, 6, 0.5]}
-REFUSE = {'01': [-0.2, -1e-9, 1.0000001, 1.4, 1.5, 7.0, float('nan')], 'flr_h': [0, 0.0, -3.05, float('nan')]}
+_IN, _OUT = T.near_limit_floats()
+# (accepted values incl. a hair inside the limits of [0, 1]; floor heights below, at and above the building heights
+#  used - 10 m in the parameter file, 3 .. 6.5 m in the low districts)
+ACCEPT = {'01': [0.0, 1.0, 0.5, 0.25, 0.375, 0.91, 0.05, 1, 0] + _IN, 'flr_h': [3.05, 2.5, 4.5, 6, 0.5, 6.5, 9.0, 12, 25.0, 1e-9]}
+REFUSE = {'01': [-0.2, -1e-9, 1.0000001, 1.4, 1.5, 7.0, float('nan')] + _OUT,
+          'flr_h': [0, 0.0, -3.05, float('nan'), -5e-324, -1e-12]}
+LOW_HEIGHTS = [10.0, 6.5, 5.0, 4.0, 3.0]
 
 
 def building_values(b):
@@ -105,7 +111,8 @@ def setter_histories(chk, uwg, pristine):
         else:
             m.bld = [tuple(x) for x in rng.choice(STOCKS)]
             m.zone = rng.choice(ZONES)
-            log.append(['stock', list(m.bld), m.zone])
+            m.bldheight = rng.choice(LOW_HEIGHTS)
+            log.append(['stock', list(m.bld), m.zone, 'bldheight', m.bldheight])
         for k in rng.sample(OV, rng.randint(1, 6)):
             fam = 'flr_h' if k == 'flr_h' else '01'
             for _ in range(rng.randint(1, 3)):
@@ -148,8 +155,11 @@ def setter_histories(chk, uwg, pristine):
     chk.direct('override-setter-histories(refused assignments; generate)', rounds, rounds,
                'one long-lived UWG object: per round a new stock / zone (every third round the stock list is edited in place '
                'instead) and 1..6 overrides each assigned 1..3 times '
-               'with accepted values (0, 1, interior, ints), None, or values the setter must refuse (-0.2, -1e-9, '
-               '1.0000001, 1.4, 1.5, 7, NaN; flr_h 0, -3.05, NaN) under try/except, then generate(): getters, every '
+               'with accepted values (0, 1, interior, ints, a hair inside the limits: 5e-324 .. 1e-9 and 1 - 1e-6 .. '
+               'the double below 1; flr_h below, at and above the building height, which varies 3 .. 10 m), None, or '
+               'values the setter must refuse (-0.2, -1e-9, '
+               '1.0000001, 1.4, 1.5, 7, NaN, a hair outside the limits: -5e-324 .. -1e-9, the double above 1 .. 1 + 1e-9; '
+               'flr_h 0, -3.05, NaN, -5e-324) under try/except, then generate(): getters, every '
                'simulated building, the three stock averages, UCM.alb_wall and UCM.facAbsor must reflect the last '
                'accepted value (reference value when unset)', mismatches=bad, branches=nops)
 
@@ -226,12 +236,176 @@ def param_file_spellings(chk, uwg, pristine):
                mismatches=bad, branches=forms)
 
 
+def carried_exactly(m, want):
+    """the value itself (bit for bit, not only ==) in every building; -0.0 vs 0.0 and int vs float are let pass"""
+    for b in m.BEM:
+        have = building_values(b)
+        for k in OV:
+            if want[k] is not None and (have[k] != want[k] or repr(float(have[k])) != repr(float(want[k]))):
+                return 'building %s/%s carries %s = %r, the accepted override is %r' % (
+                    b.bldtype, b.builtera, k, have[k], want[k])
+    return None
+
+
+def overrides_vs_other_parameters(chk, uwg, pristine):
+    """An accepted override is carried AS IT IS, whatever the other parameters are: floor height below, at and
+    above the average building height (districts of single-storey halls), 0..1 overrides below, at and above the
+    reference value they replace and next to the other overrides; a few of the districts are simulated."""
+    import uwg.uwg as UM
+    rng = chk.rng
+    quick = chk.tier == 'quick'
+    work = chk.work()
+    bad, br, n = 0, {}, 0
+    heights = [3.0, 5.0, 6.5, 10.0] if quick else [2.0, 2.5, 3.0, 4.0, 5.0, 6.5, 10.0, 16.0, 40.0, 150.0]
+    rel = [('half', 0.5), ('below', 0.8), ('equal', 1.0), ('above', 1.3), ('twice', 2.0), ('far above', 5.0)]
+    cases = []
+    for h in heights:
+        for tag, f in rel:
+            cases.append(('flr_h %s bldheight' % tag, {'bldheight': h, 'flr_h': h * f}))
+    # 0..1 overrides relative to the reference value of the first building of the stock
+    for n_, k in enumerate(OV[:5]):
+        for tag in ('below', 'equal', 'above') if not quick else ('below', 'above') if n_ % 2 else ('equal', 'above'):
+            cases.append(('%s %s reference' % (k, tag), {'ref_rel': (k, tag)}))
+    sims = 0
+    for label, spec in cases:
+        stock = [tuple(x) for x in rng.choice(STOCKS)]
+        zone = rng.choice(ZONES)
+        m = U.new_model(outdir=work, outname='c08g.epw', nday=1, dtsim=300, bld=stock, zone=zone)
+        want = {k: None for k in OV}
+        if 'ref_rel' in spec:
+            k, tag = spec['ref_rel']
+            zi = UM.REF_ZONETYPE.index('1A' if zone == '1B' else '5B' if zone == '5C' else zone)
+            r0 = building_values(pristine[UM.REF_BLDTYPE.index(stock[0][0])][UM.REF_BUILTERA.index(stock[0][1].lower())][zi])[k]
+            v = r0 if tag == 'equal' else r0 / 2 if tag == 'below' else (r0 + 1) / 2
+            want[k] = v
+            for k2 in rng.sample(OV[:5], 2):              # next to other overrides
+                if k2 != k:
+                    want[k2] = rng.choice([0.0, 1.0, v])
+        else:
+            m.bldheight = spec['bldheight']
+            want['flr_h'] = spec['flr_h']
+            if rng.random() < 0.5:
+                want[rng.choice(OV[:5])] = rng.choice([0.0, 1.0, 0.3])
+        for k in OV:
+            setattr(m, k, want[k])
+        case = {'stock': stock, 'zone': zone, 'bldheight': m.bldheight, 'overrides': {k: repr(v) for k, v in want.items()}}
+        n += 1
+        br[label.split(' ')[0] + ' ' + label.split(' ')[1]] = br.get(label.split(' ')[0] + ' ' + label.split(' ')[1], 0) + 1
+        try:
+            with core.quiet():
+                m.generate()
+            msg = oracle_generated(m, want, pristine) or carried_exactly(m, want)
+            if msg is None:
+                h = 3.05 if want['flr_h'] is None else want['flr_h']
+                area = (m.charlength ** 2) * m.blddensity * m.bldheight / h
+                for b in m.BEM:
+                    if msg is None and b.fl_area != b.frac * area:
+                        msg = 'floor area of %s is %r, expected frac*L^2*density*height/floor height = %r' % (
+                            b.bldtype, b.fl_area, b.frac * area)
+            # the district must also be simulable, and still carry the override afterwards
+            if msg is None and 'bldheight' in spec and spec['flr_h'] > spec['bldheight'] and sims < (2 if quick else 8):
+                sims += 1
+                with core.quiet():
+                    m.simulate()
+                msg = carried_exactly(m, want)
+        except Exception as e:  # noqa: BLE001
+            msg = '%s: %s' % (type(e).__name__, str(e)[:150])
+        if msg:
+            bad += 1
+            if bad <= 3:
+                chk.violation('impl-violation', 'override next to the other parameters (%s)' % label, case=case,
+                              observed=msg,
+                              expected='the accepted override value itself in every simulated building and in the '
+                                       'stock averages, independent of bldheight, of the reference values and of the '
+                                       'other overrides')
+    chk.direct('override-vs-other-parameters(flr_h around bldheight; 0..1 overrides around the reference value)', n, n,
+               'unmodified package: for bldheight %s m the floor-height override set to 0.5x, 0.8x, 1x, 1.3x, 2x and 5x '
+               'the building height (storeys taller than a low district), and each 0..1 override set below / at / '
+               'above the reference value it replaces next to other overrides, random stock and zone: generate(); '
+               'getters, every building (the value itself, bit for bit), stock averages, canyon inputs, floor areas = '
+               'frac*L^2*density*height/flr_h; %d of the low districts simulated for a day and read again' % (
+                   heights, sims), mismatches=bad, branches=br)
+
+
+def near_limit_routes(chk, uwg, pristine):
+    """Values a hair inside the limits of [0, 1] are accepted values: they must arrive unchanged, by every route."""
+    rng = chk.rng
+    quick = chk.tier == 'quick'
+    work = chk.work()
+    inside, outside = T.near_limit_floats()
+    src = U.rp(U.PARAM_SGP)
+    file_key = {'glzr': 'glzR', 'shgc': 'SHGC', 'albwall': 'albWall', 'albroof': 'albRoof', 'vegroof': 'vegRoof'}
+    bad, br, n = 0, {}, 0
+
+    def report(route, case, msg, expected):
+        nonlocal bad
+        bad += 1
+        if bad <= 3:
+            chk.violation('impl-violation', 'override value next to a limit of its range (%s route)' % route,
+                          case=case, observed=msg, expected=expected)
+    base = U.new_model(outdir=work, outname='c08n.epw', nday=1, dtsim=300).to_dict()
+    for v in (inside if not quick else inside[::2] + inside[-1:]):
+        routes = ['attribute', 'dict', 'file'] if not quick else [rng.choice(['attribute', 'dict', 'file']), 'attribute']
+        for route in dict.fromkeys(routes):
+            ks = list(OV[:5]) if route != 'attribute' or not quick else rng.sample(OV[:5], 2)
+            want = {k: None for k in OV}
+            for k in ks:
+                want[k] = v
+            stock = [tuple(x) for x in rng.choice(STOCKS)]
+            case = {'route': route, 'value': repr(v), 'overrides': ks, 'stock': stock}
+            n += 1
+            br[route] = br.get(route, 0) + 1
+            try:
+                with core.quiet():
+                    if route == 'attribute':
+                        m = U.new_model(outdir=work, outname='c08n.epw', nday=1, dtsim=300, bld=stock)
+                        for k in ks:
+                            setattr(m, k, v)
+                    elif route == 'dict':
+                        d = dict(base)
+                        d['bld'] = [list(x) for x in stock]
+                        for k in ks:
+                            d[k] = v
+                        m = uwg.UWG.from_dict(d, epw_path=U.rp(U.EPW_SGP), new_epw_dir=work, new_epw_name='c08n.epw')
+                    else:
+                        pth = S3.write_param_file(src, os.path.join(work, 'nl.uwg'), {file_key[k]: repr(v) for k in ks})
+                        m = uwg.UWG.from_param_file(pth, epw_path=U.rp(U.EPW_SGP), new_epw_dir=work,
+                                                    new_epw_name='c08n.epw')
+                        m.nday = 1
+                        stock = list(m.bld)
+                    m.generate()
+                msg = oracle_generated(m, want, pristine) or carried_exactly(m, want)
+            except Exception as e:  # noqa: BLE001
+                msg = '%s: %s' % (type(e).__name__, str(e)[:150])
+            if msg:
+                report(route, case, msg, 'a value inside [0, 1] is accepted and is the value every building carries')
+    # a hair OUTSIDE: refused by every route (never silently moved onto the limit)
+    for v in outside:
+        for k in (OV[:5] if not quick else rng.sample(OV[:5], 2)):
+            n += 1
+            br['refused'] = br.get('refused', 0) + 1
+            m = U.new_model(outdir=work, outname='c08n.epw', nday=1, dtsim=300)
+            res = S3.try_assign(m, k, v)
+            if res == 'accepted':
+                report('attribute', {'override': k, 'value': repr(v)},
+                       'accepted; the override now reads %r' % getattr(m, k),
+                       'refused: the value lies outside [0, 1]')
+    chk.direct('override-values-next-to-the-limits(attribute, dict and file route)', n, n,
+               'the five 0..1 overrides set to doubles a hair inside the limits - 5e-324, 2.2e-308, 1e-300, 1e-30, 1e-12, '
+               '5e-11, 1e-10, 1e-9, 1e-6 and 1 minus 1e-6 .. 1e-15, the double below 1 - by attribute, by from_dict and in '
+               'a parameter file (repr text): generate(); the getter, every building (bit for bit), the stock averages '
+               'and the canyon inputs hold that value; doubles a hair outside (-5e-324 .. -1e-9, the double above 1 .. '
+               '1 + 1e-9) are refused', mismatches=bad, branches=br)
+
+
 def run(chk):
     c07.run(chk, focus='C08', module=MODULE, theorems=THEOREMS)
     uwg = U.uwg_mod()
     pristine = uwg.UWG.load_refDOE()[0]
     setter_histories(chk, uwg, pristine)
     param_file_spellings(chk, uwg, pristine)
+    overrides_vs_other_parameters(chk, uwg, pristine)
+    near_limit_routes(chk, uwg, pristine)
 
 
 def replay(chk, path):
